@@ -24,7 +24,8 @@ def main():
     for p in props:
         pid = p['id']
         path = os.path.join(VERIF, 'checks', pid + '.py')
-        if not os.path.exists(path):
+        ready = open(os.path.join(VERIF, 'checks', 'READY.txt')).read().split()
+        if not os.path.exists(path) or pid not in ready:
             na.append({'property_id': pid, 'reason': 'check not built yet (planned: bounded exhaustive exploration, see DESIGN.md section 3)'})
             continue
         c = consts(path)
